@@ -45,16 +45,18 @@ Inductive stmt :=
 | SClear (t : table) | SClearAttr (t : table)         (* self._T.clear()   self._T_attr.clear() *)
 | SClearNet                                            (* self._net_attr.clear() *)
 | SSetMembers (t : table) (k : vexp)                  (* self._T[k] = members   /   = frozenset(members) *)
+| SAttrUpdateItem (t : table) (k : vexp)              (* self._T_attr[k].update(eattr), eattr = the item's own attribute dict *)
 | SNop. (* for <loop> in <i-th bound set>[.difference({minus})]: body *)
 
 Record env := mkEnv { e_args : list lbl; e_flags : list bool; e_loop : lbl; e_attr : attrs; e_loop1 : lbl; e_locals : list (list lbl);
-                      e_members : list lbl; e_idx : option lbl; e_uid : lbl }.
+                      e_members : list lbl; e_idx : option lbl; e_uid : lbl;
+                      e_eattr : attrs }.   (* e_eattr: the attribute dict of the item being added by a bulk call *)
 Definition with_loop (en : env) (x : lbl) : env :=
-  mkEnv (e_args en) (e_flags en) x (e_attr en) (e_loop en) (e_locals en) (e_members en) (e_idx en) (e_uid en).
+  mkEnv (e_args en) (e_flags en) x (e_attr en) (e_loop en) (e_locals en) (e_members en) (e_idx en) (e_uid en) (e_eattr en).
 Definition with_local (en : env) (m : list lbl) : env :=
-  mkEnv (e_args en) (e_flags en) (e_loop en) (e_attr en) (e_loop1 en) (m :: e_locals en) (e_members en) (e_idx en) (e_uid en).
+  mkEnv (e_args en) (e_flags en) (e_loop en) (e_attr en) (e_loop1 en) (m :: e_locals en) (e_members en) (e_idx en) (e_uid en) (e_eattr en).
 Definition with_uid_var (en : env) (u : lbl) : env :=
-  mkEnv (e_args en) (e_flags en) (e_loop en) (e_attr en) (e_loop1 en) (e_locals en) (e_members en) (e_idx en) u.
+  mkEnv (e_args en) (e_flags en) (e_loop en) (e_attr en) (e_loop1 en) (e_locals en) (e_members en) (e_idx en) u (e_eattr en).
 Definition veval (v : vexp) (en : env) : lbl :=
   match v with VArg i => nth i (e_args en) LNone | VLoop => e_loop en | VLoop1 => e_loop1 en | VUid => e_uid en
   | VIdx => match e_idx en with Some i => i | None => LNone end end.
@@ -186,6 +188,10 @@ Fixpoint exec (p : stmt) (en : env) (s : hg) {struct p} : hg * outcome :=
   | SClear t => (set_tab t s [], Ok)
   | SClearAttr t => (set_atab t s [], Ok)
   | SClearNet => (mkHG (h_node s) (h_nattr s) (h_edge s) (h_eattr s) [] (h_uid s), Ok)
+  | SAttrUpdateItem t k => match get (veval k en) (atab t s) with
+                           | Some d => (set_atab t s (set (veval k en) (aupdate d (e_eattr en)) (atab t s)), Ok)
+                           | None => (s, Raised IDNotFound)
+                           end
   | SSetMembers t k => if is_none (veval k en) then (s, Raised XGIError)
                        else (set_tab t s (set (veval k en) (e_members en) (tab t s)), Ok)
   | SNop => (s, Ok)
@@ -195,7 +201,7 @@ Fixpoint exec_list (l : list stmt) (en : env) (s : hg) : hg * outcome :=
   match l with [] => (s, Ok) | q :: r => match exec q en s with (s', Ok) => exec_list r en s' | x => x end end.
 
 Definition run_method_a (body : list stmt) (args : list lbl) (flags : list bool) (a : attrs) (s : hg) : res :=
-  match exec_list body (mkEnv args flags LNone a LNone [] [] None LNone) s with (s', o) => (s', o, O) end.
+  match exec_list body (mkEnv args flags LNone a LNone [] [] None LNone []) s with (s', o) => (s', o, O) end.
 Definition run_method (body : list stmt) (args : list lbl) (flags : list bool) (s : hg) : res :=
   run_method_a body args flags [] s.
 
@@ -219,12 +225,43 @@ Definition run_guarded (gs : list (bexp * guard_action)) (body : list stmt) (en 
 
 (* a method (self, members, idx=None, **attr) whose first statement is `members = set(members)` *)
 Definition run_method_m (gs : list (bexp * guard_action)) (body : list stmt) (members : list lbl) (idx : option lbl) (a : attrs) (s : hg) : res :=
-  run_guarded gs body (mkEnv [] [] LNone a LNone [] (mkset members) idx LNone) s.
+  run_guarded gs body (mkEnv [] [] LNone a LNone [] (mkset members) idx LNone []) s.
 
 (* a method (self, <iterable of ids>) / (self, <flags>) *)
 Definition run_method_l (body : list stmt) (ids : list lbl) (flags : list bool) (s : hg) : res :=
-  match exec_list body (mkEnv [] flags LNone [] LNone [] ids None LNone) s with (s', o) => (s', o, O) end.
+  match exec_list body (mkEnv [] flags LNone [] LNone [] ids None LNone []) s with (s', o) => (s', o, O) end.
 
 (* a helper (self, members, idx=None, **attr) that receives the member set ready-made (a frozenset: no repeats) *)
 Definition run_method_f (body : list stmt) (members : list lbl) (idx : option lbl) (a : attrs) (s : hg) : res :=
-  run_guarded [] body (mkEnv [] [] LNone a LNone [] members idx LNone) s.
+  run_guarded [] body (mkEnv [] [] LNone a LNone [] members idx LNone []) s.
+
+(* the body of a loop over (id, members) items - the dict format of add_edges_from: each item is run as a guarded body (a
+   `warn(...); continue` guard ends the item with one warning), `members = list(members)` is the 0-th bound collection and
+   `member_set = set(members)` the member set; a raise ends the loop *)
+Definition run_items (gs : list (bexp * guard_action)) (body : list stmt) (items : list (lbl * list lbl)) (s : hg) : res :=
+  loop (fun s im => run_guarded gs body (mkEnv [] [] LNone [] LNone [snd im] (mkset (snd im)) (Some (fst im)) LNone []) s) items s.
+
+(* one item of the bulk formats 1-4 of add_edges_from: the flag says whether the id is the caller's (then the counter is advanced
+   past it), `attr` is the **attr of the call, `eattr` the item's own dict *)
+Definition run_bulk_item (gs : list (bexp * guard_action)) (body : list stmt) (explicit : bool) (a : attrs)
+           (members : list lbl) (idx : lbl) (ea : attrs) (s : hg) : res :=
+  run_guarded gs body (mkEnv [] [explicit] LNone a LNone [members] (mkset members) (Some idx) LNone ea) s.
+
+(* the loop over the items in format k (0-based), with the dispatch table read from the source: the id is the item's or the next
+   of the counter - drawn before anything else -, the attribute dict is the item's or {} *)
+Definition run_bulk (table : list (bool * bool)) (k : nat) (gs : list (bexp * guard_action)) (body : list stmt) (a : attrs)
+           (items : list (list lbl * lbl * attrs)) (s : hg) : res :=
+  let '(explicit, has_ea) := nth k table (false, false) in
+  loop (fun s it =>
+          let '(ms, idx, ea) := it in
+          let ea' := if has_ea then ea else [] in
+          if explicit then run_bulk_item gs body true a ms idx ea' s
+          else run_bulk_item gs body false a ms (LInt (h_uid s)) ea' (with_uid s (h_uid s + 1)%Z)) items s.
+
+(* a loop over node ids whose item is: guards (a `warn(...); continue` guard ends the item with one warning), then the call of
+   another translated method on that id with the same options *)
+Definition run_node_items (gs : list (bexp * guard_action)) (callee : list stmt) (ns : list lbl) (flags : list bool) (s : hg) : res :=
+  loop (fun s n => match run_guards gs (mkEnv [] flags n [] LNone [] [] None LNone []) s with
+                   | Some r => r
+                   | None => run_method callee [n] flags s
+                   end) ns s.
